@@ -14,5 +14,10 @@ func controlsC03() []Control {
 		{Name: "PlayerRedeemChips patches the seat map in place", Expect: "R6", Mutate: replaceIn("(*tableEngine).PlayerRedeemChips", "playerState.Bankroll += joinPlayer.RedeemChips", "playerState.Bankroll += joinPlayer.RedeemChips\n\tte.table.State.SeatMap[0] = playerIdx", 0)},
 		{Name: "PlayersLeave also calls the seat manager directly", Expect: "R6", Mutate: replaceIn("(*tableEngine).PlayersLeave", "te.emitEvent(\"PlayersLeave\"", "te.sm.RemoveSeats(playerIDs)\n\tte.emitEvent(\"PlayersLeave\"", 0)},
 		{Name: "seat map entry of a new player off by one", Expect: "R4", Mutate: replaceIn("(*tableEngine).batchAddPlayers", "newPlayerIdx := len(te.table.State.PlayerStates) + len(newPlayers) - 1", "newPlayerIdx := len(te.table.State.PlayerStates) + len(newPlayers)", 0)},
+		{Name: "leave computation filters the live player list in place", Expect: "R6", Mutate: replaceIn("(*tableEngine).calcLeavePlayers", "newPlayerStates := make([]*TablePlayerState, 0)", "newPlayerStates := currentPlayers[:0]", 0)},
+		{Name: "leave filter keeps the leaving players", Expect: "R4", Mutate: replaceIn("(*tableEngine).calcLeavePlayers", "if !exist {\n\t\t\tnewPlayerStates", "if exist {\n\t\t\tnewPlayerStates", 0)},
+		{Name: "leave filter compares ids for inequality", Expect: "R4", Mutate: replaceIn("(*tableEngine).calcLeavePlayers", "return player.PlayerID == leavePlayerID", "return player.PlayerID != leavePlayerID", 0)},
+		{Name: "leave filter skips the first player", Expect: "R4", Mutate: replaceIn("(*tableEngine).calcLeavePlayers", "for _, player := range currentPlayers {\n\t\texist", "for _, player := range currentPlayers[1:] {\n\t\texist", 0)},
+		{Name: "seated-in flag cleared at settlement", Expect: "R7", Mutate: replaceIn("(*tableEngine).settleGame", "playerState.Bankroll += player.Changed", "playerState.Bankroll += player.Changed\n\t\tplayerState.IsIn = playerState.Bankroll > 0", 0)},
 	}
 }
